@@ -113,6 +113,8 @@ type evalResult struct {
 	Calls   map[ssa.CallInstruction]bool // reachable calls, including in evaluated callees
 	Returns []absVal                     // join per result index over reachable returns
 	RetInst map[*ssa.Return]bool
+	Eval    func(ssa.Value) absVal           // value of an instruction of the evaluated function in the final state
+	Edges   map[[2]*ssa.BasicBlock]bool      // reachable control-flow edges
 }
 
 type evaluator struct {
@@ -204,7 +206,8 @@ func (ev *evaluator) evalFunc(fn *ssa.Function, params []absVal) *evalResult {
 			break
 		}
 	}
-	res := &evalResult{Blocks: fr.blocks, Calls: map[ssa.CallInstruction]bool{}, RetInst: map[*ssa.Return]bool{}}
+	res := &evalResult{Blocks: fr.blocks, Calls: map[ssa.CallInstruction]bool{}, RetInst: map[*ssa.Return]bool{}, Edges: fr.edges}
+	res.Eval = func(v ssa.Value) absVal { return fr.eval(v) }
 	fr.memo = map[ssa.Value]absVal{}
 	fr.busy = map[ssa.Value]bool{}
 	before := map[ssa.CallInstruction]bool{}
@@ -308,6 +311,9 @@ func (fr *frame) eval1(v ssa.Value) absVal {
 			pred := x.Block().Preds[i]
 			if !fr.edges[[2]*ssa.BasicBlock{pred, x.Block()}] {
 				continue
+			}
+			if e == ssa.Value(x) {
+				continue // carried round a loop unchanged: contributes nothing new
 			}
 			a := fr.eval(e)
 			if first {
